@@ -13,7 +13,13 @@
     all files moved together (strict), or — chains spread over directories with colliding file
     names — a partial relocation (directories stay / move / go offline) with same-named decoy
     files next to the remaining ones: whatever is still offered must be the origin's data at the
-    composed map, never other data (input class of the open finding F70 reported as known);
+    composed map, never other data (input class of the open finding F70 reported as known); or
+    a history over a mutable file world: the origin's file is replaced in place by another
+    measurement (same identifier and length / other identifier, any length) and the referrers are
+    read again through a handle kept open and through fresh ones — served values are the current
+    origin's, data stored in the chain, or nothing.  After every kind of access (int, slice,
+    mask, index array, `[:]`, `np.asarray`, `np.array(copy=None)`) the harness tries to modify
+    the returned array in place and re-reads / re-exports: values must be unchanged;
     compared with the harness' own composition of the maps (property oracle) and with the Lean
     model (`viaBasin`, `exportFile`);
 (D) lookup order of `__getitem__` (innate > temporary > internal > file basins).
@@ -181,6 +187,27 @@ def part_a(ctx):
             got["asarray"] = canon_vals(np.asarray(BasinProxyFeature(arr, bm)), nd)
         except Exception as e:  # noqa
             got["asarray"] = common.err_class(e)
+        if len(m):
+            base = arr.copy()
+            base.flags.writeable = False     # the basin's own data (an HDF5 dataset in real life)
+            pw = BasinProxyFeature(feat_obj=base, basinmap=bm)
+            ref_vals = canon_vals(whole, nd)
+
+            def read_all(obj, nd=nd, ref_vals=ref_vals):
+                try:
+                    for name, v in (("[:]", obj[:]), ("asarray", np.asarray(obj)),
+                                    ("int", [obj[k] for k in range(len(ref_vals))])):
+                        if canon_vals(np.array(v), nd) != ref_vals:
+                            return f"{name} changed"
+                except Exception as e:  # noqa
+                    return f"raised {e!r}"[:80]
+                return None
+            for how, bad in write_probe(rng, lambda: pw, read_all, len(m)):
+                ctx.stat("A:write-through")
+                ctx.violation("spec", "modifying an array handed out by BasinProxyFeature "
+                                      f"({how}) changes later reads ({bad}); "
+                                      f"{'nd' if nd else 'scalar'} feature",
+                              {"part": "A", "o": o, "map": m, "nd": nd, "pattern": how})
         ctx.case(("A", o, m, nd, text), nontrivial=m != list(range(n_o)),
                  sample={"part": "A", "o": o, "map": m, "index": text, "impl": got["fresh"],
                          "oracle": want})
@@ -311,6 +338,61 @@ def read_tokens(ds, feat, how="[:]"):
 
 
 ACCESS = ["int", "neg", "slice", "mask", "arr", "asarray"]
+ARRAY_PATTERNS = ["slice", "mask", "arr", "[:]", "asarray", "array-copy-None", "int"]
+
+
+def fetch(obj, how, rng, n):
+    """one access of every kind that hands out data"""
+    if how == "slice":
+        a = rng.randint(0, max(n - 1, 0))
+        return obj[slice(rng.choice([None, 0, a]), None, rng.choice([None, 1, 2]))]
+    if how == "mask":
+        m = np.array([rng.random() < 0.6 for _ in range(n)], dtype=bool)
+        return obj[m]
+    if how == "arr":
+        return obj[np.array(sorted(set(rng.randrange(n) for _ in range(max(n, 1)))), dtype=int)]
+    if how == "[:]":
+        return obj[:]
+    if how == "asarray":
+        return np.asarray(obj)
+    if how == "array-copy-None":
+        return np.array(obj, copy=None)
+    return obj[rng.randrange(n)]
+
+
+def try_write(r):
+    """modify a returned array in place; returns 'ok' | 'readonly' | 'scalar'"""
+    if not isinstance(r, np.ndarray) or r.ndim == 0 or r.size == 0:
+        return "scalar"
+    try:
+        if r.dtype == bool:
+            r[...] = ~r
+        else:
+            r[...] = r + 37
+        return "ok"
+    except (ValueError, TypeError):
+        return "readonly"
+
+
+def write_probe(rng, get_obj, read_all, n, patterns=None):
+    """after every kind of access, try to modify what was handed out, then re-read through
+    several patterns with `read_all(obj)` (returns a problem string or None)"""
+    out = []
+    for how in (patterns or ARRAY_PATTERNS):
+        if n == 0:
+            break
+        try:
+            r = fetch(get_obj(), how, rng, n)
+        except Exception:  # unsupported pattern on this kind of object (checked elsewhere)
+            continue
+        w = try_write(r)
+        if w != "ok":
+            continue
+        bad = read_all(get_obj())
+        if bad:
+            out.append((how, bad))
+            break
+    return out
 
 
 def access_check(rng, ds, feat, want):
@@ -588,6 +670,7 @@ class Scenario:
             ds = dclab.new_dataset(path)
         except Exception as e:  # noqa
             return [("<open>", repr(e)[:100])]
+        touched = []
         try:
             for f in sorted(FID):
                 want = fi.show.get(f)
@@ -628,10 +711,47 @@ class Scenario:
                     else:
                         for how, what in access_check(self.rng, ds, f, want):
                             probs.append((f, f"{how}: {what}"))
+                        if not tolerant:
+                            def read_all(obj, f=f, want=want):
+                                try:
+                                    if gen.tokens_of(f, obj[:], UNIV) != want:
+                                        return "[:] changed"
+                                    if gen.tokens_of(f, np.asarray(obj), UNIV) != want:
+                                        return "asarray changed"
+                                    k = self.rng.randrange(len(want))
+                                    if gen.tokens_of(f, [obj[k]], UNIV) != [want[k]]:
+                                        return "int changed"
+                                except Exception as e:  # noqa
+                                    return f"raised {e!r}"[:80]
+                                return None
+                            pats = self.rng.sample(ARRAY_PATTERNS, 3)
+                            for how, bad in write_probe(self.rng, lambda: ds[f], read_all,
+                                                        len(want), pats):
+                                probs.append((f, f"write-through after {how}: {bad}"))
+                            touched.append(f)
                 if tag == "first":
                     self.emit(f"get {fi.fid} {FID[f]}",
                               "rows " + L(got) if isinstance(got, list) and None not in got
                               else "impl-error")
+            if touched and not probs and self.rng.random() < 0.35:
+                # export again after the in-place modification attempts
+                feats = [f for f in touched if f != "image"][:3]
+                tmp = self.dir / "reexport.rtdc"
+                try:
+                    ds.export.hdf5(tmp, features=feats, filtered=False, basins=False,
+                                   override=True)
+                    with dclab.new_dataset(tmp) as dn:
+                        for f in feats:
+                            got = read_tokens(dn, f)
+                            if got != fi.show[f]:
+                                probs.append((f, f"re-export after in-place modification: got "
+                                                 f"{got[:12]} want {fi.show[f][:12]}"))
+                    self.ctx.stat("C:re-export")
+                except Exception as e:  # noqa
+                    probs.append(("<re-export>", repr(e)[:120]))
+                finally:
+                    if tmp.exists():
+                        os.unlink(tmp)
         finally:
             try:
                 ds.close()
@@ -696,6 +816,11 @@ def run_scenario(ctx, k, spec=None):
                 problems.append((f, p))
             shutil.rmtree(sc.dir, ignore_errors=True)
             return sc, problems
+        if rng.random() < 0.5:
+            for f, p in replace_origin(ctx, sc):
+                problems.append((f, p))
+            shutil.rmtree(sc.dir, ignore_errors=True)
+            return sc, problems
         # all files moved together
         moved = sc.dir / "moved"
         moved.mkdir()
@@ -707,6 +832,101 @@ def run_scenario(ctx, k, spec=None):
         ctx.stat("C:moved")
     shutil.rmtree(sc.dir, ignore_errors=True)
     return sc, problems
+
+
+def replace_origin(ctx, sc):
+    """history over a mutable file world within this process: every referrer has been opened and
+    read (identifiers verified); now the file at the origin's path is replaced by another
+    measurement (same run identifier and length, or a different identifier with any length) and
+    the referrers are read again — through a handle that was open across the replacement and
+    through fresh ones.  Every served value must be the *current* origin's data at the mapped
+    events (possible only if the new file carries the origin's identifier), data stored in the
+    chain before the replacement, or the feature is unavailable — never the foreign file's."""
+    dclab = common.import_dclab()
+    rng = ctx.rng
+    origin = sc.files[0]
+    base = origin.show[KEEP][0]
+    same_id = rng.random() < 0.4
+    if same_id:
+        rid, n_r = origin.rid, origin.n
+    else:
+        rid = rng.choice(["Zother", origin.rid + "x", "x" + origin.rid])
+        n_r = rng.choice([origin.n, origin.n + 3, max(1, origin.n - 2), 30])
+    rtok = [250 + j for j in range(n_r)]
+    feats = [f for f in origin.innate if f != "image"]
+    last = sc.files[-1]
+    kept = None
+    try:
+        kept = dclab.new_dataset(last.path)
+        _ = kept.features_basin
+    except Exception:
+        kept = None
+    tmp = sc.dir / "replacement.rtdc"
+    gen.make_rtdc(tmp, rtok, feats=feats, rid=rid)
+    os.replace(tmp, origin.path)
+    ctx.stat(f"C:replace:{'same-id' if same_id else 'other-id'}:"
+             f"{'same-len' if n_r == origin.n else 'other-len'}")
+
+    def acceptable(want):
+        acc = [want]
+        if same_id:
+            new = []
+            for t in want:
+                if base <= t < base + origin.n:
+                    new.append(rtok[t - base] if t - base < n_r else None)
+                else:
+                    new.append(t)
+            acc.append(new)
+        return acc
+
+    def check(ds, fi, label):
+        out = []
+        for f in sorted(fi.show):
+            if f == "image":
+                continue
+            try:
+                if f not in ds:
+                    if f in fi.innate:
+                        out.append((f"{label}:{f}", "stored feature missing"))
+                    continue
+                got = read_tokens(ds, f)
+            except (KeyError, IndexError):
+                ctx.stat("C:replace:unavailable")
+                continue
+            except Exception as e:  # noqa
+                out.append((f"{label}:{f}", f"raised {e!r}"[:120]))
+                continue
+            if got not in acceptable(fi.show[f]):
+                out.append((f"{label}:{f}", f"after the origin's file was replaced "
+                                            f"({'same' if same_id else 'other'} identifier {rid!r}): "
+                                            f"got {got[:12]} acceptable {acceptable(fi.show[f])[0][:12]}"))
+            else:
+                ctx.stat("C:replace:served-new" if got != fi.show[f] else "C:replace:served-old")
+        return out
+
+    probs = []
+    if kept is not None:
+        try:
+            probs += check(kept, last, f"kept-handle-file{last.fid}")
+        finally:
+            try:
+                kept.close()
+            except Exception:
+                pass
+    for fi in sc.files[1:]:
+        try:
+            ds = dclab.new_dataset(fi.path)
+        except Exception as e:  # noqa
+            probs.append((f"file{fi.fid}", f"open raised {e!r}"[:120]))
+            continue
+        try:
+            probs += check(ds, fi, f"reopened-file{fi.fid}")
+        finally:
+            try:
+                ds.close()
+            except Exception:
+                pass
+    return probs
 
 
 def relocate(ctx, sc):
